@@ -286,6 +286,82 @@ fn check_cell_area<R: Rng>(rng: &mut R, st: &mut Stats) {
     }
 }
 
+/// States with several occupied sites of different multiplicity, in any order (public
+/// `PackedState::initialise` with hand-made Wyckoff sites): the score is still (number of copies
+/// placed) x area / cell area.
+pub fn check_multi_site(seed: u64, st: &mut Stats) {
+    use packing::wallpaper::{Wallpaper, WyckoffSite};
+    use packing::{CrystalFamily, LineShape, Transform2};
+    st.eval();
+    let mut rng = crate::common::rng_for(seed, 222);
+    let group = ["p2", "p1", "p2mg", "p1m1", "p2gg"][rng.gen_range(0, 5)];
+    let wg = match libx::lib_group(group) {
+        Ok(g) => g,
+        Err(_) => return,
+    };
+    let general = match WyckoffSite::new(&wg) {
+        Ok(s) => s,
+        Err(_) => return,
+    };
+    let one = |ops: &[&str]| WyckoffSite { letter: 'b', symmetries: ops.iter().filter_map(|o| Transform2::from_operations(o).ok()).collect(), num_rotations: 1, mirror_primary: false, mirror_secondary: false };
+    let mut sites = match rng.gen_range(0, 4) {
+        0 => vec![general.clone(), one(&["x,y"])],
+        1 => vec![general.clone(), one(&["x,y"]), one(&["x,y"])],
+        2 => vec![general.clone(), one(&["x,y", "-x,-y"]), one(&["x,y"])],
+        _ => vec![general.clone(), general.clone(), one(&["x,y"])],
+    };
+    // the general position anywhere in the list
+    let k = rng.gen_range(0, sites.len());
+    sites.swap(0, k);
+    let sides = rng.gen_range(3, 9);
+    let shape = match LineShape::polygon(sides) {
+        Ok(s) => s,
+        Err(_) => return,
+    };
+    let family = if libx::is_oblique(group) { CrystalFamily::Monoclinic } else { CrystalFamily::Orthorhombic };
+    let state0 = PackedState::initialise(shape, Wallpaper { name: group.to_string(), family }, &sites);
+    let mut v = match serde_json::to_value(&state0) {
+        Ok(v) => v,
+        Err(_) => return,
+    };
+    let n: usize = sites.iter().map(|s| s.symmetries.len()).sum();
+    v["cell"]["length"] = json!(rng.gen_range(3., 7.) * (n as f64).sqrt());
+    v["cell"]["ratio"] = json!(rng.gen_range(0.6, 1.));
+    if libx::is_oblique(group) {
+        v["cell"]["angle"] = json!(rng.gen_range(1.0, PI / 2.));
+    }
+    for i in 0..sites.len() {
+        v["occupied_sites"][i]["x"] = json!(rng.gen_range(-0.5, 0.5));
+        v["occupied_sites"][i]["y"] = json!(rng.gen_range(-0.5, 0.5));
+        v["occupied_sites"][i]["angle"] = json!(rng.gen_range(0., 6.28));
+    }
+    let state: PackedState<LineShape> = match serde_json::from_value(v) {
+        Ok(s) => s,
+        Err(_) => return,
+    };
+    let view = hard::view(&state);
+    let contact = hard::deepest_contact(&view.shape, &view.placements, &view.lattice);
+    if !(contact.depth < c01::TOL) {
+        st.count("multi_site_states_skipped_not_a_packing");
+        return;
+    }
+    let score = match state.score() {
+        Some(s) => s,
+        None => return,
+    };
+    st.nontrivial(hash64(&[223, seed]));
+    st.count("multi_site_states");
+    let want = view.placements.len() as f64 * view.shape.area() / view.lattice.area();
+    if !(rel_diff(score, want) <= REL) || !(score <= 1. + REL) {
+        st.violation(Violation {
+            kind: "c02.multisite".into(),
+            signature: if state.total_shapes() != view.placements.len() { "PackedState::total_shapes:wrong".to_string() } else { "PackedState::score:not-the-packing-fraction".to_string() },
+            case: json!({ "seed": seed }),
+            detail: json!({"group": group, "site_multiplicities": sites.iter().map(|x| x.symmetries.len()).collect::<Vec<_>>(), "copies_placed": view.placements.len(), "total_shapes": state.total_shapes(), "library_score": score, "true_packing_fraction": want}),
+        });
+    }
+}
+
 /// one hard state edited again and again (parameters several at a time, the shape replaced,
 /// cloned, read back), its score compared with the oracle after every edit
 pub fn check_history(h: &History, st: &mut Stats) {
@@ -332,7 +408,7 @@ pub fn gen_history<R: Rng>(rng: &mut R) -> History {
 }
 
 pub fn run(ctx: &Ctx) {
-    ctx.set_rule("direct: Shape::area() of polygon(3..64), from_radial with random radii 0.2-2 (star shapes included), circle, trimers over radius 0.1-1.5 x angle 10-180 x distance 0.1-2.5, vs shoelace / exact union-of-discs area (Green's theorem over exposed arcs; self-tested against a 1200x1200 grid count at start-up); state level: random states of all 7 groups, as generated and shrunk to just outside first contact, restricted to oracle-valid packings: score vs copies x area / |A x B| (1e-9 relative) and score <= 1; each such state is also ranked (partial_cmp, >, ==, max) against the same crystal in a cell 1.000001 to 4 times longer; the same comparison after every edit of state objects that live through histories of 3-13 edits (several parameters at once - set, rescaled by powers of two, negated, nudged, exchanged, reset -, the shape replaced by another, the cell replaced, clone(), JSON round trip); non-trivial = polygons, trimers with at least one lens, states with oblique cells or multi-disc shapes; distinct by shape/parameter hash");
+    ctx.set_rule("direct: Shape::area() of polygon(3..64), from_radial with random radii 0.2-2 (star shapes included), circle, trimers over radius 0.1-1.5 x angle 10-180 x distance 0.1-2.5, vs shoelace / exact union-of-discs area (Green's theorem over exposed arcs; self-tested against a 1200x1200 grid count at start-up); state level: random states of all 7 groups, as generated and shrunk to just outside first contact, restricted to oracle-valid packings: score vs copies x area / |A x B| (1e-9 relative) and score <= 1; states with several occupied sites of different multiplicity in any order (PackedState::initialise); each such state is also ranked (partial_cmp, >, ==, max) against the same crystal in a cell 1.000001 to 4 times longer; the same comparison after every edit of state objects that live through histories of 3-13 edits (several parameters at once - set, rescaled by powers of two, negated, nudged, exchanged, reset -, the shape replaced by another, the cell replaced, clone(), JSON round trip); non-trivial = polygons, trimers with at least one lens, states with oblique cells or multi-disc shapes; distinct by shape/parameter hash");
     if !selftest_union_area(ctx) {
         return;
     }
@@ -356,6 +432,9 @@ pub fn run(ctx: &Ctx) {
         for _ in 0..ns / 8 {
             check_history(&gen_history(rng), st);
         }
+        for _ in 0..ns / 4 {
+            check_multi_site(rng.gen(), st);
+        }
     });
     ctx.set_min_nontrivial(5_000);
     let _ = libx::BIG_LEN;
@@ -375,6 +454,11 @@ pub fn replay(ctx: &Ctx, kind: &str, case: &Value) {
                 if !(rel_diff(cell.area(), want) <= REL) {
                     st.violation(Violation { kind: "c02.cell".into(), signature: "Cell2::area:wrong".into(), case: case.clone(), detail: json!({"library": cell.area(), "a*b*sin(angle)": want}) });
                 }
+            }
+        }
+        "c02.multisite" => {
+            if let Some(seed) = case["seed"].as_u64() {
+                check_multi_site(seed, &mut st)
             }
         }
         "c02.history" => {
